@@ -191,11 +191,12 @@ func runC01(c *Ctx) *Replay {
 	c.State("shape", pk.B.Schema.DefShape(pk.Def, 0))
 	data, spans := refcodec.EncodeSpans(pk.B.Schema, schema.Type{Named: pk.Type}, val.Normalise(pk.B.Schema, schema.Type{Named: pk.Type}, v))
 	c.Sample(map[string]interface{}{"program": pk.B.Name(), "type": pk.Type, "shape": pk.B.Schema.DefShape(pk.Def, 0), "wire_len": len(data)})
-	if viol := c.checkReadOnlyAPI(pk, v); viol != nil {
+	if pk.Def.ReadOnly {
 		sc := base
 		sc.Extra = map[string]string{"api": "readonly"}
-		return c.reportPlain(&sc, viol)
-	} else if pk.Def.ReadOnly {
+		if viol := execReadOnlyAPI(c.N, &sc); viol != nil {
+			return c.reportPlain(&sc, viol)
+		}
 		c.Count("readonly_api_checked", 1)
 	}
 	for _, e := range allEncoders {
@@ -232,12 +233,21 @@ func runC01(c *Ctx) *Replay {
 
 // checkReadOnlyAPI exercises the API of a readonly struct: New<T>(fields...) must build the
 // value its arguments describe and every Get<Field>() must return that field.
-func (c *Ctx) checkReadOnlyAPI(pk *pick, v val.Value) *Violation {
-	t := pk.B.Types[pk.Type]
-	if t == nil || t.NewFunc == nil || !pk.Def.ReadOnly {
+func execReadOnlyAPI(n *Node, sc *Scenario) *Violation {
+	b := n.Build(sc.Prog, sc.Mask, false)
+	if b == nil || sc.Value == nil {
 		return nil
 	}
-	rec, err := c.N.fill(pk.B, pk.Type, v)
+	pk := &pick{B: b, Type: sc.Type, Def: b.Schema.Lookup(sc.Type)}
+	t := pk.B.Types[pk.Type]
+	if t == nil || t.NewFunc == nil || pk.Def == nil || !pk.Def.ReadOnly {
+		return nil
+	}
+	// the value as a sender holds it, with every union reduced to the one member it carries
+	// (the constructor's arguments are plain Go values; reading them back applies the
+	// receiver-side rule of exactly one member)
+	v := val.Normalise(pk.B.Schema, schema.Type{Named: pk.Type}, *sc.Value)
+	rec, err := n.fill(pk.B, pk.Type, v)
 	if err != nil {
 		return nil
 	}
@@ -260,7 +270,8 @@ func (c *Ctx) checkReadOnlyAPI(pk *pick, v val.Value) *Violation {
 	tt := schema.Type{Named: pk.Type}
 	got, err := bridge.FromGo(pk.B.Schema, tt, built.Elem(), nil)
 	if err != nil {
-		return mismatch("bridge|read", err.Error(), nil)
+		note(sc, "skipped", "bridge cannot read the constructed value: "+err.Error())
+		return nil
 	}
 	want := val.Canon(pk.B.Schema, tt, v)
 	if d := val.Diff(pk.B.Schema, tt, want, val.Canon(pk.B.Schema, tt, got)); d != "" {
@@ -311,6 +322,9 @@ func (n *Node) receiver(sc *Scenario) *Build {
 }
 
 func execRoundTrip(n *Node, sc *Scenario) *Violation {
+	if sc.Extra["api"] == "readonly" {
+		return execReadOnlyAPI(n, sc)
+	}
 	v := execRoundTripInner(n, sc)
 	if v != nil {
 		if v.Facts == nil {
